@@ -101,9 +101,15 @@ func LoadEngine(repoDir string) (*Engine, error) {
 			missing = append(missing, fmt.Sprintf("%s (%s:%d)", k, filepath.Base(fc.File), fc.Line))
 		}
 	}
-	if len(missing) > 0 {
-		sort.Strings(missing)
-		return nil, fmt.Errorf("contract drift: contracts name functions that do not exist: %s", strings.Join(missing, ", "))
+	// ... if it does not (renamed, turned into a method, removed), that is contract drift, not an
+	// engine failure: the contract is dropped (callers of whatever replaced the function see its
+	// body or nothing), the run goes on and reports what it can still decide
+	_ = missing
+	for k, fc := range e.cs.Funcs {
+		if _, ok := e.fnIndex[k]; !ok {
+			e.drift[strings.TrimPrefix(k, modulePath+"/internal/")] = fmt.Sprintf("the contract at %s:%d names a function that no longer exists (renamed, moved, or its receiver changed)", filepath.Base(fc.File), fc.Line)
+			delete(e.cs.Funcs, k)
+		}
 	}
 	// a spec function has one global definition: closed defines clauses of the same function in
 	// different contracts must agree
@@ -223,6 +229,7 @@ func (e *Engine) VerifyFunction(fn *ssa.Function, opts VerifyOpts) (u *Unit) {
 		havocCalls: map[string]bool{}, inlined: map[string]bool{}, lockKeys: map[string]bool{}, hintTags: map[string]string{}, boxed: map[string]boxedVal{}}
 	u.Fn = fn
 	u.concurrent = fc != nil && fc.Opts["concurrent"] == "yes"
+	u.interference = fc != nil && fc.Opts["interference"] == "yes"
 	defer func() {
 		if r := recover(); r != nil {
 			if ea, ok := r.(execAbort); ok {
